@@ -124,7 +124,7 @@ class fixed_format_file(object):
             pos = 0
             for spec in specs:
                 fmt, typ=spec[:-1], spec[-1]
-                w = int(fmt.partition('.')[0])
+                w = abs(int(fmt.partition('.')[0]))
                 nextpos = pos + w
                 self.line_spec[section].append(((pos, nextpos), typ))
                 pos = nextpos
@@ -143,10 +143,28 @@ class fixed_format_file(object):
         fmt = self.specification[linetype][1]
         strs = []
         for val , f in zip(vals , fmt):
-            if (val is not None) and (f[-1] != 'x'): valstr = ('%%%s'%f) % val
-            else: valstr = ' ' * self.spec_width[f[0:-1]] # blank
+            w = self.spec_width[f[0:-1]]
+            if (val is not None) and (f[-1] != 'x'):
+                valstr = ('%%%s'%f) % val
+                if len(valstr) > w and f[-1] != 's':
+                    valstr = self.fit_value_to_width(val, f, w)
+            else: valstr = ' ' * w # blank
             strs.append(valstr)
         return ''.join(strs)
+
+    def fit_value_to_width(self, val, f, w):
+        """Returns string for a numerical value which is too wide for its
+        format f (of width w). Precision of floats is reduced until they fit.
+        If the value cannot be made to fit, an exception is raised (rather
+        than overwriting neighbouring fields)."""
+        typ = f[-1]
+        if typ in ['e', 'f', 'g']:
+            prec = int(f[:-1].partition('.')[2] or 0)
+            while prec > 0:
+                prec -= 1
+                valstr = ('%%%d.%d%s' % (w, prec, typ)) % val
+                if len(valstr) <= w: return valstr
+        raise ValueError("Value %s is too wide for format '%s'." % (str(val), f))
 
     def read_values(self, linetype):
         """Reads a line from the file, parses it and returns the values."""
